@@ -367,7 +367,8 @@ Prop_C16(S) == IsOrbiterPacket(S) /\ S.in.dn # "L" =>
         /\ LET c == S.credit[1]  src == <<"IBC", SrcCp(S.in.chan)>> IN
            /\ (S.hasTrace /\ Len(S.perAction) > 0 => S.perAction[1].cin = [d |-> c.d, n |-> c.a])     \* acted on
            /\ (S.hasTrace /\ Len(S.perAction) = 0 /\ Len(S.req) = 1 =>
-                 S.req[1].amt = c.a /\ (S.req[1].route # "HYP" => S.req[1].denom = c.d))              \* forwarded
+                 S.req[1].amt = c.a /\ (S.req[1].route # "HYP" => S.req[1].denom = c.d)               \* forwarded
+                                    /\ (S.req[1].route = "HYP" => S.req[1].tok \in {"T1", "T2"} /\ OriginDenom(S.req[1].tok) = c.d))
            /\ \E e \in S.post.amt :                                                                 \* recorded
                  /\ <<e.sp, e.sc>> = src /\ e.denom = c.d
                  /\ LET old == {f \in S.pre.amt : AmtKeyOf(f) = AmtKeyOf(e)} IN
